@@ -30,8 +30,17 @@ ERR = {'IndexError': 1, 'ValueError': 2, 'TypeError': 3, 'AttributeError': 4, 'A
 B61 = 2 ** 61
 
 
+def nd(x):
+    """(numerator, denominator) of a Fraction / float / int, denominator a power of two"""
+    if isinstance(x, Fr):
+        return x.numerator, x.denominator
+    if isinstance(x, float):
+        return x.as_integer_ratio()
+    return int(x), 1
+
+
 def dy_exp(x):
-    d = Fr(x).denominator
+    d = nd(x)[1]
     assert d & (d - 1) == 0, x
     return d.bit_length() - 1
 
@@ -46,14 +55,12 @@ class Enc:
         self.w.append(int(n))
 
     def num(self, x):
-        fr = Fr(x)
-        k = dy_exp(fr)
-        n = fr * 2 ** self.K
-        if k <= self.K and abs(n) < 2 ** 60:
-            self.w.append(int(n) + B61)
+        n, d = nd(x)
+        k = d.bit_length() - 1
+        if k <= self.K and abs(n) < 2 ** (60 - self.K + k):
+            self.w.append((n << (self.K - k)) + B61)
         else:
-            n = int(fr * 2 ** k)
-            assert abs(n) < 2 ** 60 and k < 2 ** 20, x
+            assert d & (d - 1) == 0 and abs(n) < 2 ** 60 and k < 2 ** 20, x
             self.w += [0, n + B61, k]
 
     def term(self):
@@ -149,13 +156,12 @@ def split_prog(prog, rng, p_repeat):
 # ---------------------------------------------------------------- spelling
 def dec_digits(v):
     """(negative, digits string, exponent10) with |v| = int(digits) * 10**exponent10, exact (v dyadic)"""
-    v = Fr(v)
-    neg, v = v < 0, abs(v)
-    e = 0
-    while v.denominator != 1:
-        v *= 10
-        e -= 1
-    return neg, str(v.numerator), e
+    n, d = nd(v)
+    k = d.bit_length() - 1          # v = n / 2^k = n * 5^k / 10^k
+    neg, m, e = n < 0, abs(n) * 5 ** k, -k
+    while e < 0 and m % 10 == 0:
+        m, e = m // 10, e + 1
+    return neg, str(m), e
 
 
 def plain(digs, e):
@@ -400,7 +406,7 @@ def observe(d, pos0=0j):
 
     def xy(z):
         z = complex(z)
-        return [Fr(z.real), Fr(z.imag)]
+        return [z.real, z.imag]
     for s in segs:
         if isinstance(s, Line):
             pts = [s.start, s.end]
@@ -415,8 +421,8 @@ def observe(d, pos0=0j):
             out.append((2, sum((xy(z) for z in pts), [])))
         elif isinstance(s, Arc):
             pts = [s.start, s.radius, s.rotation, s.large_arc, s.sweep, s.end]
-            out.append((3, xy(s.start) + xy(s.radius) + [Fr(s.rotation), Fr(int(bool(s.large_arc))),
-                                                         Fr(int(bool(s.sweep)))] + xy(s.end)))
+            out.append((3, xy(s.start) + xy(s.radius) + [float(s.rotation), int(bool(s.large_arc)),
+                                                         int(bool(s.sweep))] + xy(s.end)))
         else:
             return (1, 9), ('err', 'UnknownSegment'), toks
         key.append((type(s).__name__,) + tuple(pts))
@@ -621,13 +627,13 @@ class Case:
     def term(self):
         self.obs, self.key, self.pytoks = observe(self.d, self.pos0)
         st, payload = self.obs
-        nums = [Fr(self.pos0.real), Fr(self.pos0.imag)]
+        nums = [self.pos0.real, self.pos0.imag]
         nums += prog_numbers(self.prog) if self.prog is not None else [t for t in self.toks if not isinstance(t, str)]
         if st == 0:
             nums += [v for _, vs in payload for v in vs if dy_exp(v) <= 16]
         e = Enc(nums)
-        e.num(Fr(self.pos0.real))
-        e.num(Fr(self.pos0.imag))
+        e.num(self.pos0.real)
+        e.num(self.pos0.imag)
         if self.prog is not None:
             enc_prog(e, self.prog)
         else:
@@ -709,7 +715,7 @@ def build_cases(rng, tier, rep):
             d2, _ = render(p2, rng, style)
             add(Case(d2, prog=p2, stream='exhaustive-respelled'))
     # random programs of length 5..40
-    nrand = 800 if tier == 'quick' else 10000
+    nrand = 600 if tier == 'quick' else 10000
     for i in range(nrand):
         n = rng.randint(5, 40)
         letters = ['M' if rng.random() < 0.8 else 'm'] + [rng.choice(LETTERS) for _ in range(n - 1)]
